@@ -49,6 +49,7 @@ type vfE7Chan struct {
 	Zone, Region, Global, ClientCount                               int64
 	Paused                                                          bool
 	E2E                                                             int // 0 absent, 1 present, 2 null, 3 present with percentiles, 4 present with the percentiles of Pct
+	UpNodes                                                         []int // a "nodes" member in the channel object the stub sends: -1 null, 1 an object
 	Pct                                                             []int // E2E == 4: one entry per element of "percentiles": -1 null, 0 an object without "quantile", k>0 {"quantile": k/100}
 	Clients                                                         []vfE7Client
 }
@@ -173,7 +174,7 @@ func (c vfE7Chan) tokens(sb *strings.Builder) {
 		return
 	}
 	fmt.Fprintf(sb, " C %s %d %d %d %d %d %d %d %d %d %d %d %s %s %d", vfE7S(c.Name), c.Depth, c.Backend, c.InFlight, c.Deferred,
-		c.Requeue, c.Timeout, c.Msg, c.Zone, c.Region, c.Global, c.ClientCount, vfE7B(c.Paused), vfE7E2ETok(c.E2E, c.Pct), len(c.Clients))
+		c.Requeue, c.Timeout, c.Msg, c.Zone, c.Region, c.Global, c.ClientCount, vfE7B(c.Paused), vfE7E2ETok(c.E2E, c.Pct)+vfE7JunkTok(c.UpNodes), len(c.Clients))
 	for _, k := range c.Clients {
 		if k.Null {
 			sb.WriteString(" null")
@@ -292,6 +293,38 @@ func vfE7E2ETok(mode int, pct []int) string {
 	return "p:" + strings.Join(es, ",")
 }
 
+// vfE7JunkTok: suffix of the channel's latency token: "/j:<e>,<e>" = the channel object carries "nodes":[…] (n null, o object).
+func vfE7JunkTok(up []int) string {
+	if len(up) == 0 {
+		return ""
+	}
+	var es []string
+	for _, k := range up {
+		if k < 0 {
+			es = append(es, "n")
+		} else {
+			es = append(es, "o")
+		}
+	}
+	return "/j:" + strings.Join(es, ",")
+}
+
+func vfE7ParseJunkTok(tok string) (string, []int) {
+	i := strings.Index(tok, "/j:")
+	if i < 0 {
+		return tok, nil
+	}
+	var up []int
+	for _, e := range strings.Split(tok[i+3:], ",") {
+		if e == "n" {
+			up = append(up, -1)
+		} else if e != "" {
+			up = append(up, 1)
+		}
+	}
+	return tok[:i], up
+}
+
 func vfE7ParseE2ETok(tok string) (int, []int) {
 	if !strings.HasPrefix(tok, "p:") {
 		if tok == "1" {
@@ -370,6 +403,17 @@ func (c vfE7Chan) json(sb *strings.Builder, includeClients bool) {
 		}
 	}
 	sb.WriteString("]")
+	if len(c.UpNodes) > 0 {
+		var es []string
+		for _, k := range c.UpNodes {
+			if k < 0 {
+				es = append(es, "null")
+			} else {
+				es = append(es, `{"hostname":"zz-upstream","node":"9.9.9.9:1","channel_name":"bogus","depth":5}`)
+			}
+		}
+		sb.WriteString(`,"nodes":[` + strings.Join(es, ",") + `]`)
+	}
 	vfE7E2E(c.E2E, c.Pct, sb)
 	sb.WriteString("}")
 }
@@ -1409,7 +1453,7 @@ func TestVerifE7Malformed(t *testing.T) {
 	}
 	for round := 0; round < rounds; round++ {
 		for mode := 0; mode < 2; mode++ {
-			for kind := 0; kind < 18; kind++ {
+			for kind := 0; kind < 21; kind++ {
 				w := vfE7GenWorld(rng, mode == 0, 0)
 				// t1/c1 exists on the first node
 				tp := vfE7GenTopic(rng, "t1")
@@ -1491,6 +1535,18 @@ func TestVerifE7Malformed(t *testing.T) {
 				case 16: // empty percentiles array
 					t0.E2E, t0.Pct = 4, nil
 					t0.Channels[0].E2E, t0.Channels[0].Pct = 4, []int{}
+				case 18, 19, 20: // the channel object carries a "nodes" member (18: [null], 19: [null, {…}], 20: [{…}]) and a second node reports the channel
+					t0.Channels[0].UpNodes = [][]int{{-1}, {-1, 1}, {1}}[kind-18]
+					t1 := vfE7GenTopic(rng, "t1")
+					t1.Channels = []vfE7Chan{vfE7GenChan(rng, "c1")}
+					if len(w.Nsqds) > 1 {
+						w.Nsqds[1].Topics = append([]vfE7Topic{t1}, w.Nsqds[1].Topics...)
+						if mode == 0 {
+							p := vfE7Producer{Hostname: w.Nsqds[1].Hostname, Sym: w.Nsqds[1].Sym, TCPPort: w.Nsqds[1].TCPPort, Version: "1.3.0",
+								Remote: "10.0.0.2:1", Topics: []string{"t1"}, Tombstones: []bool{false}}
+							w.Lookupds[0].Lookup = append(w.Lookupds[0].Lookup, p)
+						}
+					}
 				case 17: // only null elements, channel and topic
 					t0.E2E, t0.Pct = 4, []int{-1, -1}
 					t0.Channels[0].E2E, t0.Channels[0].Pct = 4, []int{-1, -1, -1}
@@ -1563,7 +1619,9 @@ func (p *vfE7Tok) channel() vfE7Chan {
 	}
 	c := vfE7Chan{Name: p.s(), Depth: p.n(), Backend: p.n(), InFlight: p.n(), Deferred: p.n(), Requeue: p.n(), Timeout: p.n(), Msg: p.n(),
 		Zone: p.n(), Region: p.n(), Global: p.n(), ClientCount: p.n(), Paused: p.b()}
-	c.E2E, c.Pct = vfE7ParseE2ETok(p.next())
+	etok, up := vfE7ParseJunkTok(p.next())
+	c.UpNodes = up
+	c.E2E, c.Pct = vfE7ParseE2ETok(etok)
 	for k := p.n(); k > 0; k-- {
 		if p.next() == "null" {
 			c.Clients = append(c.Clients, vfE7Client{Null: true})
